@@ -1,27 +1,136 @@
-"""Decides the exit code from the per-function results, prints the summary, writes evidence."""
+"""Decides the exit code from the per-function results, triages known findings, writes replay files
+and the evidence file (DESIGN.md section 4)."""
 from __future__ import annotations
 
+import hashlib
 import json
 import os
+import re
+import subprocess
+import sys
+import time
 
 HERE = os.path.dirname(os.path.dirname(os.path.abspath(__file__)))
+NATIVE_PY = "/venv/bin/python"
+
+TRUSTED_BASE = [
+    "pyvc translator (AST -> z3): /verif/pyvc, cross-checked against CPython by pyvc.crosscheck and by mutation canaries",
+    "z3 4.x/5.1 (python3-vt z3-solver wheel) and /usr/bin/cvc5 1.0.3 for queries z3 leaves unknown",
+    "CPython ast module (parsing of /repo sources)",
+    "Python semantics as encoded in pyvc/ops.py and pyvc/lib.py: unbounded ints, timedelta/naive datetime as integer "
+    "microseconds, floor division/modulo toward -inf, attribute lookup as read from the class ASTs, no monkey-patching",
+    "induction principle for the pow2 lemmas and for 'an invariant preserved by every operation holds after every history'",
+]
 
 
-def finish(prop, tier, repo_root, db, results, lemma_results, wall, verbose=False):
+def load_findings():
+    p = os.path.join(HERE, "known_findings.json")
+    if not os.path.exists(p):
+        return {"findings": [], "fixed": []}
+    return json.load(open(p))
+
+
+def match_finding(findings, prop, fn, obname):
+    for f in findings["findings"]:
+        props = f.get("properties") or [f.get("property")]
+        if prop in props and f["fn"] == fn and f["obligation"] == obname:
+            return f
+    return None
+
+
+def slug(s):
+    return re.sub(r"[^A-Za-z0-9_.-]+", "_", s)[:120]
+
+
+def write_replay(prop, repo_root, db, r, obname, e, fail):
+    d = os.path.join(HERE, "out", "replay", prop)
+    os.makedirs(d, exist_ok=True)
+    short = r["fn"].split("::")[-1]
+    base = os.path.join(d, slug(f"{short}__{obname}"))
+    kind = obname.split(":")[0]
+    clause = None
+    if kind == "ensures":
+        clause = (r.get("ensures") or {}).get(obname.split(":", 1)[1])
+    elif kind == "raises-when":
+        clause = (r.get("raises") or {}).get(obname.split(":")[1])
+    rep = {
+        "property": prop, "fn": r["fn"], "obligation": obname, "clause": clause, "where": fail.get("where") or e.get("where"),
+        "solver": e["solvers"], "solver_output": fail.get("detail"), "model": fail.get("model"), "path": fail.get("path"),
+        "source_sha": r.get("sha"), "repo_root": repo_root, "schema": r.get("schema"), "clock": r.get("clock", []),
+        "defines": {k: [v[0], v[1]] for k, v in db.defines.items()},
+    }
+    if fail.get("smt2"):
+        with open(base + ".smt2", "w") as fh:
+            fh.write(fail["smt2"])
+        rep["smt2"] = base + ".smt2"
+    with open(base + ".json", "w") as fh:
+        json.dump(rep, fh, indent=1, default=str)
+    return base + ".json"
+
+
+def run_native_replay(path, timeout=120):
+    """returns (code, output): 1 reproduced, 0 not reproduced, 2 cannot replay"""
+    try:
+        out = subprocess.run([NATIVE_PY, os.path.join(HERE, "replaylib", "run.py"), path], capture_output=True,
+                             text=True, timeout=timeout, cwd=HERE)
+        return out.returncode, (out.stdout + out.stderr)[-4000:]
+    except (subprocess.TimeoutExpired, OSError) as exc:
+        return 2, f"replay did not finish: {exc}"
+
+
+def finish(prop, tier, repo_root, db, results, lemma_results, wall, verbose=False, reverify=None, extra=None):
+    findings = load_findings()
     allres = list(results) + list(lemma_results)
     crashes = [r for r in allres if r["crash"]]
     errors = [r for r in allres if r["error"]]
     failed, undecided = [], []
     n_ob = n_dis = 0
+    known_lines, violations = [], []
+    known_obs = []
+    samples = []
+    per_ob = []
     for r in allres:
         for name, e in r["obligations"].items():
             n_ob += 1
+            per_ob.append({"fn": r["fn"], "obligation": name, "status": e["status"], "solvers": e["solvers"],
+                           "solver_time_s": e["time"], "paths": e["paths"]})
             if e["status"] == "discharged":
                 n_dis += 1
+                if len(samples) < 6:
+                    samples.append({"fn": r["fn"], "obligation": name, "clause": e["where"][:200],
+                                    "back_end": e["solvers"], "paths": e["paths"]})
             elif e["status"] == "failed":
-                failed.append((r["fn"], name, e))
+                failed.append((r, name, e))
             else:
-                undecided.append((r["fn"], name, e))
+                undecided.append((r, name, e))
+    # ---- triage failures against the known-findings file
+    for r, name, e in failed:
+        f = match_finding(findings, prop, r["fn"], name)
+        if f is not None:
+            still = None
+            if f.get("case") and reverify is not None:
+                still = reverify(r["fn"], name, f["case"])   # 'discharged' | 'failed' | 'undecided'
+            if f.get("case") is None or still == "discharged":
+                known_lines.append(f"KNOWN-FINDING: property={prop} {f['id']} {f['what']}")
+                known_obs.append({"fn": r["fn"], "obligation": name, "finding": f["id"],
+                                  "outside_case": still or "whole clause"})
+                if still == "discharged":
+                    n_dis += 1          # the clause is proved on the complement of the finding's case
+                else:
+                    n_ob -= 1           # whole-clause finding: not counted as an obligation of this run
+                continue
+            if still == "undecided":
+                known_lines.append(f"KNOWN-FINDING: property={prop} {f['id']} {f['what']}")
+                undecided.append((r, name + " (outside known case)", e))
+                continue
+        fail = e["failures"][0] if e["failures"] else {}
+        path = write_replay(prop, repo_root, db, r, name, e, fail)
+        code, out = run_native_replay(path)
+        rep = json.load(open(path))
+        rep["native_replay"] = {"exit": code, "output": out}
+        json.dump(rep, open(path, "w"), indent=1, default=str)
+        violations.append((r["fn"], name, path, code, e))
+    # ---- print
     for r in allres:
         tag = "ok"
         if r["crash"]:
@@ -36,17 +145,81 @@ def finish(prop, tier, repo_root, db, results, lemma_results, wall, verbose=Fals
             print("   ", r["error"])
         for name, e in r["obligations"].items():
             if verbose or e["status"] != "discharged":
-                print(f"    {e['status']:<10} {name}  [{','.join(e['solvers'])} {e['time']}s x{e['paths']}] {e['where'][:100]}")
-                for f in e["failures"][:1]:
-                    print(f"        {f['detail'][:300]}")
-    print(f"property {prop}: obligations={n_ob} discharged={n_dis} failed={len(failed)} undecided={len(undecided)} wall={wall:.1f}s")
-    if crashes or n_ob == 0:
-        return 3
-    if failed:
-        for fn, name, e in failed:
-            print(f"VIOLATION property={prop} replay=- no-failing-input-found")
-        return 1
-    if errors or undecided:
+                print(f"    {e['status']:<10} {name}  [{','.join(e['solvers'])} {e['time']}s x{e['paths']}] {e['where'][:110]}")
+                for fl in e["failures"][:1]:
+                    print(f"        {str(fl['detail'])[:400]}")
+    print(f"property {prop}: obligations={n_ob} discharged={n_dis} violations={len(violations)} "
+          f"known={len(known_lines)} undecided={len(undecided)} wall={wall:.1f}s")
+    for ln in sorted(set(known_lines)):
+        print(ln)
+    code = 0
+    if crashes or (n_ob + len(known_obs)) == 0:
+        code = 3
+    elif violations:
+        code = 1
+    elif errors or undecided:
+        code = 2
+    if code == 1:
+        for fn, name, path, rc, e in violations:
+            suffix = "" if rc == 1 else " no-failing-input-found"
+            print(f"  failed obligation {fn.split('::')[-1]} / {name}: {e['where'][:160]}")
+            print(f"VIOLATION property={prop} replay={path}{suffix}")
+    elif code == 2:
         print(f"UNDECIDED property={prop}")
-        return 2
-    return 0
+    elif code == 3:
+        print(f"CHECKER-ERROR property={prop}")
+    write_evidence(prop, tier, repo_root, db, allres, n_ob, n_dis, per_ob, samples, known_obs, violations, undecided,
+                   errors, wall, code, extra or {})
+    return code
+
+
+def write_evidence(prop, tier, repo_root, db, allres, n_ob, n_dis, per_ob, samples, known_obs, violations, undecided,
+                   errors, wall, code, extra):
+    assumed = sorted({a for r in allres for a in r["assumed"]})
+    fns = [{"fn": r["fn"], "source_sha256_16": r["sha"], "paths": r["paths"], "queries": r["queries"],
+            "obligations": len(r["obligations"]), "wall_s": r["wall"], "exits": r.get("exits", {})} for r in allres]
+    contract = {}
+    for c in db.contracts.values():
+        if prop in c.serves:
+            contract[c.fn] = "assumed" if c.assumed else "verified against the body"
+    solver_time = round(sum(o["solver_time_s"] for o in per_ob), 3)
+    back_ends = {}
+    for o in per_ob:
+        for s in o["solvers"]:
+            back_ends[s] = back_ends.get(s, 0) + 1
+    not_decided = extra.get("not_decided", [])
+    ev = {
+        "property_id": prop,
+        "tier": tier if tier in ("quick", "thorough") else "quick",
+        "seed": int(os.environ.get("VERIF_SEED", "0") or 0),
+        "level": "proof",
+        "coverage": {
+            "obligations": max(n_ob, 0),
+            "discharged": n_dis,
+            "checker_cmd": f"python3-vt -m pyvc check {prop} --tier {tier}",
+            "trusted_base": TRUSTED_BASE,
+            "samples": samples or [{"note": "no discharged obligation in this run"}],
+            "functions_under_contract": fns,
+            "contracts_serving_property": contract,
+            "per_obligation": per_ob,
+            "back_ends": back_ends,
+            "solver_time_s": solver_time,
+            "queries": sum(r["queries"] for r in allres),
+            "known_finding_obligations": known_obs,
+            "undecided": [{"fn": r["fn"], "obligation": n} for r, n, _e in undecided],
+            "unsupported": [{"fn": r["fn"], "reason": r["error"]} for r in errors],
+            "violations": [{"fn": fn, "obligation": n, "replay": p, "native_replay_exit": rc} for fn, n, p, rc, _e in violations],
+            "property_clauses_not_decided": not_decided,
+            "bounded_stand_ins": extra.get("bounded", []),
+            "crosscheck": extra.get("crosscheck", {}),
+            "exit_code": code,
+            "repo_root": repo_root,
+        },
+        "assumptions": assumed + extra.get("assumptions", []),
+        "wall_s": round(wall, 2),
+        "violations": len(violations),
+    }
+    d = os.path.join(HERE, "evidence")
+    os.makedirs(d, exist_ok=True)
+    with open(os.path.join(d, f"{prop}.json"), "w") as fh:
+        json.dump(ev, fh, indent=1, default=str)
